@@ -532,11 +532,60 @@ func (w *world) genDS() {
 	}
 }
 
+// digestText returns variants of a DS digest field: what the wire codec
+// can produce (lower-case hex, possibly empty) and what only a hand-built
+// record can hold (odd length, non-hex, upper case, padding).
+func digestText(r *vlib.R, dig string, broken bool) string {
+	if !broken {
+		switch r.Intn(10) {
+		case 0:
+			b := []byte(dig)
+			if len(b) > 0 {
+				b[r.Intn(len(b))] = vlib.Pick(r, []byte{'0', 'f', '7'})
+			}
+			return string(b)
+		case 1:
+			return strings.ToUpper(dig)
+		case 2:
+			if len(dig) >= 2 {
+				return dig[:len(dig)-2]
+			}
+		case 3:
+			return dig + "00"
+		}
+		return dig
+	}
+	switch r.Intn(8) {
+	case 0, 1:
+		return "" // a DS whose RDATA stops after the digest type
+	case 2:
+		if len(dig) > 0 {
+			return dig[:len(dig)-1] // odd length
+		}
+		return "a"
+	case 3:
+		return strings.Repeat("zz", max(1, len(dig)/2))
+	case 4:
+		return dig + " "
+	case 5:
+		return "0x" + dig
+	case 6:
+		if len(dig) > 2 {
+			return dig[:1] + "g" + dig[2:]
+		}
+		return "g0"
+	}
+	return " "
+}
+
 func (w *world) genVerifyDS() {
 	r := w.r
 	w.out("dsv new")
 	owner := pres(joinWireName(genLabels(r, 1, 3, true)))
-	nk := 1 + r.Intn(3)
+	nk := r.Intn(4)
+	if nk == 0 && r.Chance(2, 3) {
+		nk = 1
+	}
 	var keys []*dns.DNSKEY
 	for i := 0; i < nk; i++ {
 		s := vlib.Pick(r, w.allKeys)
@@ -550,36 +599,69 @@ func (w *world) genVerifyDS() {
 		pk := s.pub
 		if r.Chance(1, 8) {
 			pk = wrap(r, pk)
+		} else if r.Chance(1, 20) {
+			pk = vlib.Pick(r, []string{"", b64(r.Bytes(4093)), mangle(r, pk)})
 		}
 		keys = append(keys, &dns.DNSKEY{Hdr: dns.RR_Header{Name: recaseStr(r, owner), Rrtype: dns.TypeDNSKEY, Class: 1},
 			Flags: uint16(vlib.Pick(r, []int{257, 257, 257, 256, 1, 385})), Protocol: uint8(vlib.Pick(r, []int{3, 3, 3, 3, 2})), Algorithm: alg, PublicKey: pk})
 	}
-	var ktoks, dtoks []string
+	var ktoks, rtoks []string
 	for _, k := range keys {
 		ktoks = append(ktoks, keyToken(k))
+		rtoks = append(rtoks, keyRefDigests(k))
 	}
-	for i := 1 + r.Intn(3); i > 0; i-- {
-		k := vlib.Pick(r, keys)
-		dt := vlib.Pick(r, []int{1, 2, 4, 2, 2, 5, 3, 0})
+	// shape of the DS set: how its supported records fail, and what sits next to them
+	//   0 ordinary mix   1 every supported DS has an undecodable digest   2 only unsupported records
+	//   3 empty set      4 supported records name no offered key          5 one good DS among broken ones
+	shapes := []int{0, 1, 5, vlib.Pick(r, []int{2, 3, 4, 0, 1})}
+	for _, shape := range shapes {
+		w.dsSet(keys, ktoks, rtoks, owner, shape)
+	}
+}
+
+func (w *world) dsSet(keys []*dns.DNSKEY, ktoks, rtoks []string, owner string, shape int) {
+	r := w.r
+	var dtoks []string
+	nd := 1 + r.Intn(3)
+	if shape == 3 {
+		nd = 0
+	}
+	for i := 0; i < nd; i++ {
+		var k *dns.DNSKEY
+		if len(keys) > 0 {
+			k = vlib.Pick(r, keys)
+		} else {
+			k = &dns.DNSKEY{Hdr: dns.RR_Header{Name: owner, Class: 1}, Flags: 257, Protocol: 3, Algorithm: 13, PublicKey: b64(r.Bytes(64))}
+		}
+		dt := vlib.Pick(r, []int{1, 2, 4, 2, 2})
 		tag, _ := safeLibTag(k)
 		alg := int(k.Algorithm)
-		dig := hex.EncodeToString(libDigest(k.Hdr.Name, int(k.Flags), int(k.Protocol), alg, k.PublicKey, dt))
-		if dig == "" {
-			dig = hex.EncodeToString(r.Bytes(32))
+		unsupportedRec := shape == 2 || (shape != 3 && r.Chance(1, 5))
+		if unsupportedRec {
+			if r.Bool() {
+				dt = vlib.Pick(r, []int{0, 3, 5, 6, 255})
+			} else {
+				alg = vlib.Pick(r, []int{1, 3, 12, 16, 250, 0})
+			}
+		} else if alg != 5 && alg != 7 && alg != 8 && alg != 10 && alg != 13 && alg != 14 && alg != 15 {
+			alg = 13 // keep the record a supported one
 		}
-		switch r.Intn(9) {
-		case 0:
-			b := []byte(dig)
-			b[r.Intn(len(b))] = vlib.Pick(r, []byte{'0', 'f', '7'})
-			dig = string(b)
-		case 1:
+		dig := hex.EncodeToString(libDigest(k.Hdr.Name, int(k.Flags), int(k.Protocol), int(k.Algorithm), k.PublicKey, dt))
+		if dig == "" {
+			dig = hex.EncodeToString(r.Bytes(vlib.Pick(r, []int{20, 32, 48})))
+		}
+		broken := shape == 1 || (shape == 5 && i > 0) || (shape == 0 && r.Chance(1, 6))
+		if unsupportedRec {
+			broken = r.Chance(1, 4)
+		}
+		dig = digestText(r, dig, broken)
+		switch {
+		case shape == 4:
+			tag += uint16(1 + r.Intn(5))
+		case shape == 0 && r.Chance(1, 8):
 			tag++
-		case 2:
+		case shape == 0 && r.Chance(1, 8) && !unsupportedRec:
 			alg = vlib.Pick(r, []int{8, 13, 15})
-		case 3:
-			dig = strings.ToUpper(dig)
-		case 4:
-			dig = dig[:len(dig)-2]
 		}
 		class := 1
 		if r.Chance(1, 12) {
@@ -590,7 +672,17 @@ func (w *world) genVerifyDS() {
 			dtoks = append(dtoks, dtoks[len(dtoks)-1])
 		}
 	}
-	w.out("dsv verify " + strings.Join(ktoks, ";") + " " + strings.Join(dtoks, ";"))
+	for i := len(dtoks) - 1; i > 0; i-- {
+		j := r.Intn(i + 1)
+		dtoks[i], dtoks[j] = dtoks[j], dtoks[i]
+	}
+	tok := func(x []string) string {
+		if len(x) == 0 {
+			return "-"
+		}
+		return strings.Join(x, ";")
+	}
+	w.out("dsv verify " + tok(ktoks) + " " + tok(dtoks) + " " + tok(rtoks))
 }
 
 // ---------------------------------------------------------------- RSA pieces
@@ -1255,7 +1347,7 @@ func gen(r *vlib.R, n int, tier string, emit func(string)) {
 			w.genOversized()
 		case k < 32:
 			w.genDS()
-		case k < 38:
+		case k < 40:
 			w.genVerifyDS()
 		case k < 44:
 			w.genRSAParse()
